@@ -1207,9 +1207,11 @@ LEVEL_NOTE = LEVEL_NOTE.replace("Partial: zsh/fish/nushell have no generator mod
 AREAS = AREAS + ["zsh"]
 TRUSTED = TRUSTED + [
     "zsh generator model: extraction of Complete/ZshModel.v (+ FishModel.v's text decoration and dbuild; ExtrOcamlBasic "
-    "only), driver ocaml/zsh_driver.ml (readers of the aot and aottext spec formats); conflicts_with, value_names, "
-    "value_terminator and last are outside the model (no spec format expresses them; the model writes what the generator "
-    "writes when they are absent)",
+    "only), driver ocaml/zsh_driver.ml (readers of the aot and aottext spec formats; Arg::blacklist = conflicts_with is a "
+    "parameter of the model -- a function (owning command, argument) -> ids -- that the driver supplies from the (cx ..) "
+    "items of the spec: keyed by the bin name of the command, a propagated global argument reads the entry of the nearest "
+    "ancestor that declares it); value_names, value_terminator, last, argument groups and conflicts ON global arguments "
+    "are outside the model (no spec format expresses them)",
 ]
 
 ZSH_NAME_BYTES = ["'", "\\", ",", "$", "#", " ", "\"", "`", "(", ")", ";", "\t", "é", "%", "~", "*", "=", "\n", "-", "_",
@@ -1259,6 +1261,7 @@ def streams(tier, rng):
     plans = [(None, 90 if quick else 1300),
              ({"alias_without_primary": True}, 12 if quick else 150),    # finding alias-without-primary (class boundary)
              ({"optional_value": True}, 12 if quick else 150),           # finding zsh-optional-value (class boundary)
+             ({"conflicts": 1.0}, 25 if quick else 400),                 # conflicts_with on every level with >= 2 options: the exclusion lists, in order
              ({"bin": "b in"}, 4 if quick else 40), ({"bin": "é-x"}, 4 if quick else 40)]
     for prof, n in plans:
         for _ in range(n):
@@ -1301,13 +1304,14 @@ LEVEL_TEXT = (LEVEL_TEXT +
               "Command::build yields a linked tree and generate (set_bin_name + build + generator) writes a script for every "
               "tree and every assignment of texts.  The model's "
               "script is compared byte for byte with the real generator's on every generated tree on every run.")
-LEVEL_NOTE = ("Partial: nushell has no generator model (token oracle only); fish (two levels), PowerShell, elvish and zsh "
+LEVEL_NOTE = ("Partial: fish (two levels), PowerShell, elvish, nushell and zsh "
               "have byte-exact generator models with theorems but are not installed (their scripts are modelled and analysed, "
               "not run); bash itself is validated by execution, not proved; Command::build and its text side are tied "
               "differentially (built-tree dump, byte-exact scripts; that build never exhausts its fuel and yields a linked tree "
               "ARE proved); that build keeps names free of spaces and sibling names distinct is a hypothesis of the zsh "
-              "exact-lookup and coverage theorems (tied by the built-tree dump); zsh: "
-              "conflicts_with, value_names, value_terminator and last are outside the model (no spec format expresses them), "
+              "exact-lookup and coverage theorems (tied by the built-tree dump); zsh: conflicts_with is a parameter of the "
+              "model (the exclusion lists are compared byte for byte, their order is pinned by C16_zsh_conflicts_list), "
+              "value_names, value_terminator, last, groups and conflicts on global arguments are outside the model, "
               "multi-valued positionals after a catch-all are skipped by design; char::is_uppercase is a parameter of the "
               "PowerShell model; known findings (see known_findings.json) are outside the proved class.")
 # ---- end zsh generator model ----
